@@ -474,10 +474,20 @@ func resolveType(x ast.Expr, pkg *types.Package) (types.Type, error) {
 	return nil, fmt.Errorf("unsupported type expression %T", x)
 }
 
+// importAliases: per package path, file-level import aliases (alias -> import path), filled at load time.
+var importAliases = map[string]map[string]string{}
+
 func findImport(pkg *types.Package, name string) *types.Package {
 	for _, ip := range pkg.Imports() {
 		if ip.Name() == name {
 			return ip
+		}
+	}
+	if path, ok := importAliases[pkg.Path()][name]; ok {
+		for _, ip := range pkg.Imports() {
+			if ip.Path() == path {
+				return ip
+			}
 		}
 	}
 	// search transitively one level (types used but not imported directly)
